@@ -34,6 +34,10 @@ LEVEL_TEXT.update({
     "C08": "Bounded model checking of the real loader over a file model: for a log of <=3 records with symbolic bytes and every cut offset, loading succeeds and delivers exactly the complete records before the cut, byte for byte; a record appended after the restart is checked on the second restart (recorded finding for cuts inside a record).",
 })
 
+LEVEL_TEXT.update({
+    "C07": "Bounded model checking of the real persist-and-reload chain over the file model: for every 16-bit expiry, unit and aof-timing flag, Count/Rcount, depth 1..2 and five outage lengths, exactly the persisted still-live hold comes back with the same LockId/Count/Rcount/depth and a deadline within one unit plus a second; never-persist holds do not come back, expired ones do not either.",
+})
+
 LEVEL_NOTE = {
     "C01": "Trusted: the symgo executor (validated per run by native replay of sampled path witnesses), z3. Schedules: single-threaded critical sections only (no interleaving of two requests inside LockDB.Lock is explored); time values drawn from classes {0,3}/{0,4}; millisecond flags and aof-timing flags fixed in these harnesses.",
     "C02": "Trusted: symgo (validated by native replay of sampled witnesses), z3. Single-threaded critical sections; holder list shapes <=3 (inline queue only); show/update flags excluded here (C06).",
@@ -42,6 +46,7 @@ LEVEL_NOTE = {
     "C17": "Trusted: symgo, z3. One key, one shard; free collectors outside; the drain phase is checked only over the single step.",
     "C05": "Millisecond-flag timeouts (wall-clock wheel and its goroutines) and waits longer than 12 s in the simulation are outside; larger T are covered only by the symbolic deadline formula plus the long-table sweep exercised at T > 8. One shard, one key.",
     "C06": "Millisecond-flag expiries, updates that shorten a wheel entry (the 10 s clause) and follower deferral (C10) are outside. One shard, one key.",
+    "C07": "One key and one hold per run; value payloads, updates, several databases, file rotation (C16) and the AofChannel goroutine / 200 ms timer are outside; millisecond flag excluded. Arithmetic obligations that z3 cannot decide in 3 s go to cvc5 --solve-bv-as-int=sum.",
     "C08": "File model: full reads and whole-buffer writes; records without attached values (the value file is empty); real disks, fsync and page-cache reordering are outside. LoadAofFiles is driven directly (not Aof.LoadAndInit).",
     "C10": "Kernel only: Server.checkProtocol/handle choosing the forwarding wrapper, the TCP connection to the leader, the relay of frames by Transparency*ServerProtocol and the text-protocol relay are outside this check (no sockets in the executor).",
     "C13": "Trusted: symgo, z3. Frames <= 8 bytes; paths that would allocate more than 300 distinct sizes are cut (listed as unsupported in the evidence); text handlers, CALL and the 64-byte header parser are covered by separate harnesses where registered.",
